@@ -4,6 +4,7 @@ package props
 
 import (
 	"fmt"
+	"sort"
 	"strings"
 	"testing"
 
@@ -520,6 +521,60 @@ func c10GraphCase(n, bits int) c10Case {
 	return cs
 }
 
+// c10DepCase: a required dependency on a profile-disabled service is an error, an optional one is not - whichever
+// files the dependency list and the `required` flags arrive from (the steps of C11's depends-on-list generator).
+type c10DepCase struct {
+	Dep      c11DepCase `json:"dep"`
+	Disabled []string   `json:"disabled"`
+}
+
+func c10DepCheck(c *Ctx, cs c10DepCase) *Failure {
+	if len(cs.Dep.Steps) == 0 {
+		return nil
+	}
+	dis := map[string]bool{}
+	for _, d := range cs.Disabled {
+		dis[d] = true
+	}
+	dep := cs.Dep
+	dep.ExtendsFirst = false // a template service would break the rule on its own
+	files, main, want, _ := c11DepFiles(dep, dis)
+	var offending []string
+	for d, w := range want {
+		if w.required && dis[d] {
+			offending = append(offending, d)
+		}
+	}
+	sort.Strings(offending)
+	r := loadCase{Files: files, Main: main}.loadMem()
+	if r.Panic != nil {
+		return r.Panic
+	}
+	desc := func() string {
+		var b strings.Builder
+		for _, f := range files {
+			b.WriteString("--- " + f.Name + "\n" + f.Content)
+		}
+		return b.String()
+	}
+	c.Label(fmt.Sprintf("dependency-on-disabled:files:%d", len(main)))
+	if len(cs.Disabled) > 0 {
+		c.NonTrivial(jsonKey(cs), map[string]any{"files": files})
+	}
+	if len(offending) > 0 {
+		c.Label("dependency-on-disabled:must-fail")
+		if r.Err == nil {
+			return failf("c10:inconsistent-model-accepted:required-dependency-on-disabled-service", "web requires %v, disabled by profiles, but the model loaded with depends_on %+v\n%s", offending, r.Project.Services["web"].DependsOn, desc())
+		}
+		return nil
+	}
+	c.Label("dependency-on-disabled:must-load")
+	if r.Err != nil {
+		return failf("c10:consistent-model-rejected:optional-dependency-on-disabled-service", "every dependency on a disabled service is optional, but the load failed: %v\n%s", r.Err, desc())
+	}
+	return nil
+}
+
 func TestC10(t *testing.T) {
 	c := NewCtx(t, "C10")
 	// (2) every rule x placement x variants, violated and control
@@ -537,6 +592,18 @@ func TestC10(t *testing.T) {
 	}
 	c.Extra("rules", len(c10Rules()))
 	RunEnum(c, t, "rule-violations", len(cases), func(i int) c10Case { return cases[i] }, c10Check, true)
+
+	// (2b) dependency lists and `required` flags arriving from several files, some dependencies profile-disabled
+	RunRapid(c, t, Sub[c10DepCase]{Kind: "dependency-on-disabled-service", Quick: 2500, Thorough: 40_000,
+		Gen: func(t *rapid.T) c10DepCase {
+			cs := c10DepCase{Dep: genC11Dep(t)}
+			for _, d := range []string{"db", "cache", "mq", "log"} {
+				if rapid.IntRange(0, 2).Draw(t, "disabled-"+d) == 0 {
+					cs.Disabled = append(cs.Disabled, d)
+				}
+			}
+			return cs
+		}, Check: c10DepCheck})
 
 	// (3) all digraphs (with self-loops) on <= 3 services; thorough: <= 4 (65536)
 	maxN := 3
